@@ -83,6 +83,12 @@ def _in_msg_arm(cx, site, types, depth=2):
     ok, _ = g.guarded(site.at, lambda lits: any(acc(l) for l in lits))
     if ok:
         return True
+    # nested matches narrow the type step by step (`A | B | C => { follow(); match t { A => .., B => .., _ => here } }`)
+    allv = cx.facts.variants("raft_proto::protos::eraftpb::MessageType")
+    if allv:
+        pv = g.possible_values(site.at, lambda e: e[0] == "field" and e[2] == "Message.msg_type", allv)
+        if pv and pv <= frozenset(types) and len(pv) < len(allv):
+            return True
     if depth <= 0:
         return False
     callers = _callers_of(cx, site.fn)
